@@ -1516,6 +1516,14 @@ class Interp:
             r = self._strcat_method(cv.origin[1], cv.origin[2], args, node, st)
             if r is not None:
                 return r
+        if isinstance(cv, Sym) and cv.origin and cv.origin[0] == 'attr' and isinstance(cv.origin[1], StrCat) \
+                and cv.origin[2] in ('endswith', 'startswith') and len(args) == 1 and isinstance(args[0], K) \
+                and isinstance(args[0].v, str) and cv.origin[1].parts:
+            sc_ = cv.origin[1]
+            end = cv.origin[2] == 'endswith'
+            t = sc_.parts[-1] if end else sc_.parts[0]
+            if isinstance(t, K) and len(t.v) >= len(args[0].v):
+                return [('val', K(t.v.endswith(args[0].v) if end else t.v.startswith(args[0].v)), st)]
         # '<sep>'.join(<literal sequence of symbolic strings>)
         sep = None
         if isinstance(cv, K) and type(cv.v).__name__ == '_BoundPy' and cv.v.attr == 'join' and isinstance(cv.v.base, str):
